@@ -1,2 +1,40 @@
-(* C03 - statements only (proofs pending). *)
-From N2 Require Import Model.All.
+(* C03 - unchanged steps are not re-run: statements only; proofs in Proofs/World*.v *)
+From Coq Require Import String.
+From N2 Require Import Model.All Proofs.DbSpec Proofs.WorldSpec.
+From N2 Require Import Proofs.WorldBase Proofs.WorldDeps Proofs.WorldDirty Proofs.WorldLocal Proofs.WorldLog.
+
+Theorem C03_runs_only_if_changed : forall g w b bd w' why, check_build_dirty g w b bd = (w', DDirty why) -> (why = 1%N /\ exists n, In n (wb_dirtying bd ++ disc_of w b ++ wb_outs bd) /\ cache_get (ws_cache w') n = Some None /\ (cache_get (ws_cache w) n = Some None \/ fs_get (ws_fs w) n = None)) \/ (why = 2%N /\ assoc_nat b (ws_hashes w) = None) \/ (why = 3%N /\ exists m prev, manifest_of w' bd (disc_of w b) = Some m /\ assoc_nat b (ws_hashes w) = Some prev /\ hash_build m <> prev).
+Proof. exact runs_only_if_changed. Qed.
+Print Assumptions C03_runs_only_if_changed.
+
+Theorem C03_phony_never_dirty : forall g w b bd, wb_cmdline bd = None -> snd (check_build_dirty g w b bd) = DClean.
+Proof. exact phony_never_dirty. Qed.
+Print Assumptions C03_phony_never_dirty.
+
+Theorem C03_manifest_ignores_order_only : forall g w b bd bd', same_manifest_parts bd bd' -> check_build_dirty g w b bd = check_build_dirty g w b bd' /\ forall w0 d, manifest_of w0 bd d = manifest_of w0 bd' d.
+Proof. exact verdict_ignores_order_only. Qed.
+Print Assumptions C03_manifest_ignores_order_only.
+
+Theorem C03_verdict_graph_local : forall g1 g2 w b bd, (forall n, In n (wb_dirtying bd ++ disc_of w b) -> (producer_of g1 n = None <-> producer_of g2 n = None)) -> check_build_dirty g1 w b bd = check_build_dirty g2 w b bd.
+Proof. exact verdict_graph_local. Qed.
+Print Assumptions C03_verdict_graph_local.
+
+Theorem C03_clean_after_record : forall g w b bd reported w1 h w2, record_finished w b bd reported = Ok (w1, Some h) -> wb_cmdline bd <> None -> ws_fs w2 = ws_fs w1 -> cache_consistent w2 -> assoc_nat b (ws_hashes w2) = Some h -> disc_of w2 b = disc_of w1 b -> stated_generated g w2 (wb_dirtying bd ++ disc_of w1 b) -> snd (check_build_dirty g w2 b bd) = DClean.
+Proof. exact clean_after_record. Qed.
+Print Assumptions C03_clean_after_record.
+
+Theorem C03_adopt_counts_as_up_to_date : forall g w b bd w1 h w2, record_finished w b bd None = Ok (w1, Some h) -> wb_cmdline bd <> None -> ws_fs w2 = ws_fs w1 -> cache_consistent w2 -> assoc_nat b (ws_hashes w2) = Some h -> disc_of w2 b = disc_of w1 b -> stated_generated g w2 (wb_dirtying bd ++ disc_of w1 b) -> snd (check_build_dirty g w2 b bd) = DClean /\ disc_of w1 b = [].
+Proof. exact adopt_counts_as_up_to_date. Qed.
+Print Assumptions C03_adopt_counts_as_up_to_date.
+
+Theorem C03_unchanged_upstream_output : forall g w w' b bd, disc_of w b = disc_of w' b -> assoc_nat b (ws_hashes w) = assoc_nat b (ws_hashes w') -> (forall n, In n (wb_dirtying bd ++ disc_of w b ++ wb_outs bd) -> cache_get (ws_cache w) n = cache_get (ws_cache w') n /\ fs_get (ws_fs w) n = fs_get (ws_fs w') n) -> snd (check_build_dirty g w b bd) = snd (check_build_dirty g w' b bd).
+Proof. exact unchanged_upstream_output. Qed.
+Print Assumptions C03_unchanged_upstream_output.
+
+Theorem C03_unchanged_upstream_output_fresh : forall g w w' b bd, ws_cache w = [] -> ws_cache w' = [] -> disc_of w b = disc_of w' b -> assoc_nat b (ws_hashes w) = assoc_nat b (ws_hashes w') -> (forall n, In n (wb_dirtying bd ++ disc_of w b ++ wb_outs bd) -> fs_get (ws_fs w) n = fs_get (ws_fs w') n) -> snd (check_build_dirty g w b bd) = snd (check_build_dirty g w' b bd).
+Proof. exact unchanged_upstream_output_fresh. Qed.
+Print Assumptions C03_unchanged_upstream_output_fresh.
+
+Theorem C03_null_build_after_reload : forall g w ws b bd reported w1 h, log_is w ws -> record_finished w b bd reported = Ok (w1, Some h) -> Forall in_bounds (ws ++ [wr_of bd (disc_of w1 b) h]) -> table_small (ws ++ [wr_of bd (disc_of w1 b) h]) -> wb_cmdline bd <> None -> wb_outs bd <> [] -> (forall o, In o (wb_outs bd) -> producer_of g o = Some b) -> (forall n, In n (wb_dirtying bd ++ disc_of w1 b) -> producer_of g n = None) -> exists wL, load_state g (ws_fs w1) (ws_log w1) = Ok wL /\ snd (check_build_dirty g wL b bd) = DClean.
+Proof. exact null_build_after_reload. Qed.
+Print Assumptions C03_null_build_after_reload.
